@@ -21,7 +21,7 @@ func init() {
 			"integer bookkeeping states (GR4J n1,n2) must be equal",
 		},
 		Workloads: []core.Workload{
-			{Name: "split", Variant: "plain", N: core.Tiered(17*30, 17*600), Run: c06Split},
+			{Name: "split", Variant: "plain", N: core.Tiered(17*30, 17*3000), Run: c06Split},
 		},
 	})
 }
